@@ -26,6 +26,7 @@ import (
 	"io"
 	"log"
 	"runtime"
+	"strconv"
 	"sync"
 	"sync/atomic"
 	"time"
@@ -686,6 +687,9 @@ func (g *dgen) setMin() {
 		}
 	case 1, 2:
 		e = 4 + int64(r.Intn(3))
+	}
+	if strconv.IntSize == 32 && e > 10 { // the model shifts in 64 bits; on a 32-bit int 1<<e differs from e = 31 on
+		e = int64(r.Intn(11))
 	}
 	g.add(List(Int(10), Int(e)))
 }
